@@ -17,6 +17,7 @@ func vCheckAbort(tr *vTransport, c *Conn, err error, class error, desc byte, wha
 	vAssert(len(tr.out) == 7, what+": exactly one alert record written to the client")
 	if len(tr.out) == 7 {
 		vAssert(tr.out[0] == 0x15 && tr.out[3] == 0 && tr.out[4] == 2 && tr.out[5] == 2, what+": fatal alert framing")
+		vAssert(tr.out[1] == 3 && tr.out[2] >= 1 && tr.out[2] <= 4, what+": the alert record carries a TLS record version")
 		vAssert(tr.out[6] == desc, what+": alert description")
 	}
 	vAssert(tr.closed, what+": end of stream after the alert")
